@@ -14,6 +14,11 @@
 //	      => nil | err | PANIC | ok retry=<0|1> sent=<ns> addr=<hex> rtt=<ns> odcid=<hex> rscid=<hex>
 //	check <kid> <hex|-> <addr> <maxTokenAge_ns> <handshakeIdle_ns>   DecodeToken, then baseServer.validateToken
 //	      => <nil|err|PANIC|ok> valid=<0|1> | now=<ns>
+//	initial <kid> <hex|-> <addr> <wantsRetry> <maxTokenAge_ns> <handshakeIdle_ns>
+//	      a REAL quic.Transport/Listener (key kid, MaxTokenAge, VerifySourceAddress = wantsRetry, HandshakeIdleTimeout)
+//	      receives a 1200-byte Initial datagram carrying this token from <addr>; handleInitialImpl's decision is
+//	      observed through GetConfigForClient(ClientInfo.AddrVerified) / the Retry packet written
+//	      => proceed av=<0|1> | retry | drop | now=<ns>
 //	sleep <ns>                                                                  => ok | now=<ns>
 //
 // addr: u:<iphex>:<port>:<zonehex> (*net.UDPAddr) or o:<hex of String()> (another net.Addr); "-" = empty hex.
@@ -26,6 +31,7 @@ import (
 	"net"
 	"strconv"
 	"strings"
+	"sync"
 	"testing"
 	"testing/synctest"
 	"time"
@@ -34,6 +40,9 @@ import (
 	"github.com/refraction-networking/uquic/internal/handshake"
 	"github.com/refraction-networking/uquic/internal/protocol"
 	"github.com/refraction-networking/uquic/internal/verifharness/vh"
+	"github.com/refraction-networking/uquic/internal/wire"
+	"github.com/refraction-networking/uquic/testutils/simnet"
+	tls "github.com/refraction-networking/utls"
 )
 
 type strAddr string
@@ -52,13 +61,15 @@ type asn1Token struct {
 }
 
 type issued struct {
-	kid   int
-	tok   []byte
-	addr  string // addr text it was issued for ("" for raw tokens)
-	retry bool
+	kid    int
+	tok    []byte
+	addr   string // addr text it was issued for ("" for raw tokens)
+	retry  bool
+	panics bool // DecodeToken panics on it (oversized connection ID): never shown to a real server goroutine
 }
 
 type runner struct {
+	keys   [2]handshake.TokenProtectorKey
 	gens   [2]*handshake.TokenGenerator
 	toks   []issued
 	byID   map[int][]byte
@@ -72,7 +83,8 @@ func newRunner(r *vh.Rand) vh.Runner {
 		k0[i] = byte(i*7 + 1)
 		k1[i] = byte(i*13 + 5)
 	}
-	return &runner{gens: [2]*handshake.TokenGenerator{handshake.NewTokenGenerator(k0), handshake.NewTokenGenerator(k1)}}
+	return &runner{keys: [2]handshake.TokenProtectorKey{k0, k1},
+		gens: [2]*handshake.TokenGenerator{handshake.NewTokenGenerator(k0), handshake.NewTokenGenerator(k1)}}
 }
 
 func hx(b []byte) string {
@@ -159,7 +171,25 @@ func otherAddr(r *vh.Rand, a string) string {
 var maxAges = []int64{int64(24 * time.Hour), int64(time.Hour), int64(time.Second), 0}
 var idles = []int64{int64(5 * time.Second), int64(time.Second), int64(100 * time.Millisecond)}
 
+// GenOp: a share of the generated `check` operations is shown to a real server instead (`initial`)
 func (rn *runner) GenOp(r *vh.Rand, i int) string {
+	op := rn.genOp(r, i)
+	if f := strings.Fields(op); len(f) == 6 && f[0] == "check" && !strings.HasPrefix(f[2], "@") && !rn.mayPanic(f[2]) && r.Chance(10) {
+		return fmt.Sprintf("initial %s %s %s %d %s %s", f[1], f[2], f[3], r.Intn(2), f[4], f[5])
+	}
+	return op
+}
+
+func (rn *runner) mayPanic(tokHex string) bool {
+	for _, t := range rn.toks {
+		if t.panics && hx(t.tok) == tokHex {
+			return true
+		}
+	}
+	return false
+}
+
+func (rn *runner) genOp(r *vh.Rand, i int) string {
 	if len(rn.queue) > 0 {
 		op := rn.queue[0]
 		rn.queue = rn.queue[1:]
@@ -354,7 +384,8 @@ func (rn *runner) Exec(op string) string {
 		if err != nil {
 			return "E:seal"
 		}
-		rn.remember(id, issued{kid: kid, tok: tok, retry: f[4] == "1"})
+		rn.remember(id, issued{kid: kid, tok: tok, retry: f[4] == "1",
+			panics: f[3] == "F" && f[4] == "1" && (len(unhx(f[8])) > 20 || len(unhx(f[9])) > 20)})
 		return "ok tok=" + hx(tok) + now()
 	case "decode":
 		if len(f) != 3 {
@@ -389,6 +420,20 @@ func (rn *runner) Exec(op string) string {
 			valid = 1
 		}
 		return fmt.Sprintf("%s valid=%d", fmtTok(t, err, false), valid) + now()
+	case "initial":
+		if len(f) != 7 {
+			return "bad-op"
+		}
+		kid, ok := kidOf(f[1])
+		addr := parseAddr(f[3])
+		tokb, ok2 := rn.tokenArg(f[2])
+		if !ok || addr == nil {
+			return "bad-op"
+		}
+		if !ok2 || rn.mayPanic(hx(tokb)) {
+			return "skip"
+		}
+		return rn.realInitial(kid, tokb, addr, f[4] == "1", time.Duration(vh.Atoi64(f[5])), time.Duration(vh.Atoi64(f[6]))) + now()
 	case "sleep":
 		if len(f) != 2 {
 			return "bad-op"
@@ -397,6 +442,90 @@ func (rn *runner) Exec(op string) string {
 		return "ok" + now()
 	}
 	return "bad-op"
+}
+
+var srvAddr = &net.UDPAddr{IP: net.IPv4(1, 0, 0, 1), Port: 443}
+
+// capRouter delivers datagrams addressed to the server and captures everything the server writes
+type capRouter struct {
+	inner simnet.PerfectRouter
+	mu    sync.Mutex
+	out   [][]byte
+}
+
+func (r *capRouter) AddNode(a net.Addr, c simnet.PacketReceiver) { r.inner.AddNode(a, c) }
+func (r *capRouter) SendPacket(p simnet.Packet) error {
+	if p.To.String() == srvAddr.String() {
+		return r.inner.SendPacket(p)
+	}
+	r.mu.Lock()
+	r.out = append(r.out, append([]byte(nil), p.Data...))
+	r.mu.Unlock()
+	return nil
+}
+
+// realInitial shows one Initial datagram with the given token to a real server and reports what
+// handleInitialImpl decided.
+func (rn *runner) realInitial(kid int, tok []byte, from net.Addr, wantsRetry bool, maxTokenAge, idle time.Duration) string {
+	rt := &capRouter{}
+	sc := simnet.NewSimConn(srvAddr, rt)
+	key := rn.keys[kid]
+	tr := &quic.Transport{Conn: sc, TokenGeneratorKey: &key, MaxTokenAge: maxTokenAge}
+	if wantsRetry {
+		tr.VerifySourceAddress = func(net.Addr) bool { return true }
+	}
+	var mu sync.Mutex
+	called, verified := false, false
+	ln, err := tr.Listen(&tls.Config{NextProtos: []string{"verif"}}, &quic.Config{
+		HandshakeIdleTimeout: idle,
+		GetConfigForClient: func(ci *quic.ClientInfo) (*quic.Config, error) {
+			mu.Lock()
+			called, verified = true, ci.AddrVerified
+			mu.Unlock()
+			return nil, fmt.Errorf("verif: refuse")
+		},
+	})
+	if err != nil {
+		return "E:listen"
+	}
+	v := protocol.Version1
+	hdr := &wire.ExtendedHeader{
+		Header: wire.Header{Type: protocol.PacketTypeInitial, DestConnectionID: protocol.ParseConnectionID([]byte{1, 2, 3, 4, 5, 6, 7, 8}),
+			SrcConnectionID: protocol.ParseConnectionID([]byte{9, 9, 9, 9}), Version: v, Token: tok, Length: 1000},
+		PacketNumber: 0, PacketNumberLen: protocol.PacketNumberLen4,
+	}
+	raw, err := hdr.Append(nil, v)
+	if err != nil {
+		return "E:hdr"
+	}
+	hdr.Length = protocol.ByteCount(4 + 1200 - len(raw))
+	raw, _ = hdr.Append(nil, v)
+	for len(raw) < 1200 {
+		raw = append(raw, byte(len(raw)*7+3))
+	}
+	rt.inner.SendPacket(simnet.Packet{To: srvAddr, From: from, Data: raw})
+	synctest.Wait()
+	res := "drop"
+	mu.Lock()
+	if called {
+		res = fmt.Sprintf("proceed av=%d", map[bool]int{false: 0, true: 1}[verified])
+	}
+	mu.Unlock()
+	rt.mu.Lock()
+	for _, d := range rt.out {
+		if len(d) > 0 && wire.IsLongHeaderPacket(d[0]) {
+			if h, _, _, err := wire.ParsePacket(d); err == nil && h.Type == protocol.PacketTypeRetry && res == "drop" {
+				res = "retry"
+			}
+		}
+	}
+	rt.mu.Unlock()
+	go ln.Close()
+	synctest.Wait()
+	tr.Close()
+	sc.Close()
+	synctest.Wait()
+	return res
 }
 
 func fmtTok(t *handshake.Token, err error, full bool) string {
